@@ -177,3 +177,13 @@ func Shard() int {
 
 // Choose returns a value in 0..n-1 that is concrete on every path (the engine forks n ways).
 func Choose(tag string, n int) int { return Concrete(IntRange(tag, 0, n-1)) }
+
+// SortSliceModel is the model the engine substitutes for sort.Slice: insertion sort driven by the caller's
+// less function and an engine-native swap. (sort.Slice itself needs reflection.)
+func SortSliceModel(n int, less func(i, j int) bool, swap func(i, j int)) {
+	for i := 1; i < n; i++ {
+		for j := i; j > 0 && less(j, j-1); j-- {
+			swap(j, j-1)
+		}
+	}
+}
